@@ -2,9 +2,10 @@
 //! properties: C19
 //! note: MonitorUpdatingPersisterAsync clean-up: every KVStore::remove of an incremental update is for an id <= the latest_update_id of the full monitor read from the store (trace property written as the precondition of the external remove())
 //! trusted: R5: MonitorUpdatingPersisterAsyncInner<K,..> self skeleton {kv_store}; KVStore is a stub with async list/remove (remove carries the trace precondition); UpdateName is a skeleton (u64, String) whose new()/from()/as_str() are external_body with the id/name correspondence (id_of_name uninterpreted: the name determines the id); MonitorName opaque with from_str/to_key external_body (to_key(from_str(k)) == k assumed); maybe_read_monitor is external_body: the monitor it returns is the stored one, i.e. its latest_update_id == stored_latest(key) (definition of stored_latest)
-//! plemma: C19 call-site precondition of KVStore::remove in cleanup_stale_updates / cleanup_stale_updates_for_monitor_to / cleanup_in_range: id_of_name(key) <= stored_latest(monitor key) -- clean-up never deletes an update that recovery still needs
+//! plemma: C19 call-site precondition of KVStore::remove in cleanup_stale_updates / cleanup_stale_updates_for_monitor_to / cleanup_in_range and of both clean-up calls after the consolidating write in update_persisted_channel: id_of_name(key) <= stored_latest(monitor key) -- clean-up never deletes an update that recovery still needs
 //! trusted: R13: `for x in a..=b` rewritten into an explicit loop over the inclusive range
-//! assume: stored_latest(key) is stable for the duration of the functions (no concurrent writer replaces the full monitor with an older one); cleanup_in_range is called with end <= the id of a full monitor already written (its caller update_persisted_channel is an impl Future from async-move blocks, outside the verifier)
+//! trusted: R15 (deep slice): update_persisted_channel builds its result from async-move blocks (impl Future, outside the verifier); the unit extracts the body of the block that runs after the consolidating full-monitor write verbatim as an async fn of (monitor_name, latest_update_id, write_status), together with the function-local const LEGACY_CLOSED_CHANNEL_UPDATE_ID; its precondition is the meaning of a successful write: the stored full monitor then is the one just written (stored_latest == its latest_update_id); the decision update-vs-full-monitor and the writes themselves are dropped and not claimed
+//! assume: stored_latest(key) is stable for the duration of the functions (no concurrent writer replaces the full monitor with an older one)
 use vstd::prelude::*;
 verus! {
 pub struct Error {}
@@ -63,7 +64,7 @@ impl ChannelMonitor {
     #[verifier::external_body]
     pub fn get_latest_update_id(&self) -> (r: u64) ensures r == self.latest { unimplemented!() }
 }
-pub struct MonitorUpdatingPersisterAsyncInner { pub kv_store: KVStoreStub }
+pub struct MonitorUpdatingPersisterAsyncInner { pub kv_store: KVStoreStub, pub maximum_pending_updates: u64 }
 impl MonitorUpdatingPersisterAsyncInner {
     #[verifier::external_body]
 	async fn maybe_read_monitor(&self, monitor_name: &MonitorName, monitor_key: &str) -> (r: Result<Option<(BlockLocator, ChannelMonitor)>, Error>)
@@ -118,6 +119,34 @@ impl MonitorUpdatingPersisterAsyncInner {
     let update_name = UpdateName::from(update_id);
 //@with
     let update_name = UpdateName::from(update_id + 1);
+//@end
+
+// ---- what happens after the consolidating full-monitor write (deep R15 slice of update_persisted_channel) ----
+//@extract lightning/src/util/persist.rs :: impl MonitorUpdatingPersisterAsyncInner :: fn update_persisted_channel
+//@strip io
+//@capture R15
+    const LEGACY_CLOSED_CHANNEL_UPDATE_ID: u64 = $legacy;
+//@slice R15
+    res_b = Some(async move { let write_status = write_fut.await; $body:any write_status });
+//@with
+    async fn after_full_monitor_write(&self, monitor_name: MonitorName, latest_update_id: u64, write_status: Result<(), Error>) -> Result<(), Error> {
+        const LEGACY_CLOSED_CHANNEL_UPDATE_ID: u64 = $legacy;
+        $body
+        write_status
+    }
+//@ret r
+//@requires
+    write_status is Ok ==> stored_latest(monitor_name.key()) == latest_update_id,
+//@ensures A the-write-result-is-reported
+    write_status is Err ==> r is Err,
+//@mutant clean_up_even_when_the_full_write_failed
+    if let Ok(()) = write_status {
+//@with
+    if true {
+//@mutant clean_up_one_past_the_written_monitor
+    let end = latest_update_id;
+//@with
+    let end = latest_update_id + 1;
 //@end
 }
 }
